@@ -1,14 +1,21 @@
 """Worker process for whole-simulation checks (C01, C18).
 
-    python -m vcheck.engine_worker  < job.json  > result.json
+    python -m vcheck.engine_worker  < job.json  > ... @@VCHECK@@<result.json>
 
-job: {"spec": program spec (vcheck/components.py), "mode": "run_simulation" | "run" | "step" |
-      "interactive_take" | "interactive_until" | "interactive_step",
-      "noise": int (seeds and consumes the global numpy / random generators), "prior_contexts": k,
-      "log_draws": bool, "save_at": n | null, "save_path": str, "resume_path": str | null}
-result: {"digests": [...], "results": digest, "events": [...], "draws": [...], "error": str | null,
-         "hashseed": ..., "context_name": ...}
-The process is started with the PYTHONHASHSEED chosen by the parent.
+job: {"spec": program spec (vcheck/components.py),
+      "mode": one of enginekit.MODES (which API drives the run),
+      "route": one of enginekit.ROUTES (how components and configuration reach the context),
+      "noise": int (seeds and consumes the global numpy / random generators),
+      "prior": k | [style, ...]  (earlier contexts of this process: "empty" | "rich" | "same" | "interleaved"),
+      "verbosity": 0 | 1 | 2 (1, 2: loguru really logs, to a null device), "sim_name": str | null,
+      "log_draws": bool, "report_dir": str | null (output_data.results_directory; `report()` writes there),
+      C18: "save_all": {"dir", "ctx": "engine" | "interactive", "how": "write_backup" | "run_backup"},
+           "save_at": n, "save_ctx", "save_path", "crash_at": n,
+           "resume_path": str, "resume_mode": "step" | "run" | "take" | "until", "then_save": {"after": k, "path": str}}
+result: {"digests": [...], "results": digest, "measures": {name: digest}, "events": [...], "draws": [...], "error": str | null,
+         "hashseed": ..., "context_name": ..., "ret": what run / run_until / run_for returned, "report": digest of the written files}
+The process is started with the PYTHONHASHSEED chosen by the parent. The result is the last stdout line that starts
+with @@VCHECK@@ (the simulation itself may log to stdout).
 """
 from __future__ import annotations
 
@@ -16,7 +23,9 @@ import hashlib
 import json
 import os
 import random
+import shutil
 import sys
+import tempfile
 
 from . import impl
 
@@ -30,6 +39,18 @@ from vivarium.framework.engine import SimulationContext  # noqa: E402
 from vivarium.interface.interactive import InteractiveContext  # noqa: E402
 
 from . import components, drawlog  # noqa: E402
+
+MARK = "@@VCHECK@@"
+
+
+def _cell(v) -> str:
+    if isinstance(v, (float, np.floating)):
+        return "nan" if pd.isna(v) else float(v).hex()
+    if isinstance(v, (pd.Timestamp, pd.Timedelta)):
+        return str(int(v.value))
+    if v is pd.NaT:
+        return "nat"
+    return str(v)
 
 
 def table_digest(df: pd.DataFrame) -> str:
@@ -46,14 +67,16 @@ def table_digest(df: pd.DataFrame) -> str:
     return hashlib.sha1("\n".join(parts).encode()).hexdigest()[:16]
 
 
+def measure_digest(df: pd.DataFrame) -> str:
+    cols = list(df.columns)          # column order is part of the result (measure identifiers)
+    rows = sorted(tuple(_cell(v) for v in r) for r in df[cols].itertuples(index=False))
+    return hashlib.sha1((",".join(map(str, cols)) + "|" + repr(rows)).encode()).hexdigest()[:12]
+
+
 def results_digest(res: dict) -> str:
     h = hashlib.sha1()
     for k in sorted(res):
-        df = res[k]
-        cols = list(df.columns)          # column order is part of the result (measure identifiers)
-        rows = sorted(tuple(float(v).hex() if isinstance(v, (float, np.floating)) else str(v) for v in r)
-                      for r in df[cols].itertuples(index=False))
-        h.update((k + "|" + ",".join(cols) + "|" + repr(rows)).encode())
+        h.update((k + "|" + measure_digest(res[k])).encode())
     return h.hexdigest()[:16]
 
 
@@ -62,7 +85,8 @@ class SimulatedCrash(Exception):
 
 
 class Probe(Component):
-    """passive observer: digests the whole state table at the start and at the end of every step"""
+    """passive observer: digests the whole state table at the start and at the end of every step, and the results so far
+    at the end of every step"""
 
     def __init__(self, noise):
         super().__init__()
@@ -72,6 +96,10 @@ class Probe(Component):
         self.sim = None
         self.crash_at = None      # simulated crash: raise at the start of step number `crash_at` (0-based)
         self.steps_started = 0
+        self.others = []          # contexts of OTHER simulations of this process, stepped in the middle of this one's steps
+        self.copy_from = None     # run(backup_path, ...) target: copied to copy_to % boundary at the start of the next step
+        self.copy_to = None
+        self.peek = False         # look around between the steps through every read-only API of the context
 
     @property
     def name(self):
@@ -94,143 +122,399 @@ class Probe(Component):
 
     def _dig(self, tag, event):
         pop = self.sim._population.get_population(True)
-        self.digests.append(f"{tag}:{table_digest(pop)}")
+        d = table_digest(pop)
+        if tag == "metrics":
+            d += "/" + results_digest(self.sim.get_results())
+        self.digests.append(f"{tag}:{d}")
         self.events.append([tag, self._tick(self.clock()), self._tick(event.step_size), len(event.index), len(pop)])
         # consume the process-global generators: must be irrelevant
         np.random.random(self.noise % 7 + 1)
         random.random()
+        if self.noise % 3 == 0:
+            np.random.seed(self.noise % 1000 + len(self.digests))
+            random.seed(len(self.digests))
 
     def on_time_step_prepare(self, event):
         if self.crash_at is not None and self.steps_started == self.crash_at:
             raise SimulatedCrash()
+        if self.copy_from and self.steps_started > 0 and os.path.exists(self.copy_from):
+            shutil.copyfile(self.copy_from, self.copy_to % self.steps_started)
         if self.steps_started == 0:
             # the table right after the initial population was created (before anything stepped)
             self.digests.append("init:" + table_digest(self.sim._population.get_population(True)))
         self.steps_started += 1
         self._dig("prepare", event)
+        for o in self.others:
+            # another simulation of the same process takes a step while this one is inside its own
+            if o.current_time < o._clock.stop_time:
+                o.step()
 
     def on_collect_metrics(self, event):
         self._dig("metrics", event)
+        if getattr(self, "peek", False):
+            self._look_around()
+
+    def _look_around(self):
+        """what somebody exploring a simulation does between steps; none of it may change the outcome"""
+        import contextlib
+        import io
+        sim = self.sim
+        with contextlib.redirect_stdout(io.StringIO()):
+            pop = sim.get_population()
+            sim.get_results()
+            sim.get_performance_metrics()
+            sim.get_number_of_steps_remaining()
+            repr(sim), str(sim), sim.name, sim.current_time
+            for c in sim._component_manager._components:
+                repr(c), str(c), c.name
+            if isinstance(sim, InteractiveContext):
+                sim.get_population(untracked=True)
+                sim.get_population(True)
+                for name in sim.list_values():
+                    pipe = sim.get_value(name)
+                    if pipe.source is not None and name != "simulant_step_size":
+                        pipe(pop.index)
+                        pipe(pop.index[::-1][:3], skip_post_processor=True)
+                for e in sim.list_events():
+                    sim.get_listeners(e)
+                sim.list_components()
+                sim.get_component("pop")
+                sim.print_initializer_order()
+                sim.print_lifecycle_order()
 
     def on_simulation_end(self, event):
         self._dig("end", event)
 
 
-def finish(sim, probe, mode, out):
-    clock = sim._clock
+def make_context(cls, spec, route, extra, scratch, verbosity=0, sim_name=None, setup_interactive=False):
+    """one context for `spec`, its components and configuration delivered through `route`; `extra` = further component
+    instances (the probe). An InteractiveContext is created with setup=False unless `setup_interactive`."""
+    from layered_config_tree import LayeredConfigTree
+    comps = components.build(spec)
+    cfg = components.configuration(spec)
+    plug = components.plugins(spec)
+    kw = dict(logging_verbosity=verbosity)
+    if sim_name:
+        kw["sim_name"] = sim_name
+    if cls is InteractiveContext:
+        kw["setup"] = bool(setup_interactive)
+    k = max(1, len(comps) // 2)
+    if route == "args":
+        return cls(components=comps + extra, configuration=cfg, plugin_configuration=plug, **kw)
+    if route == "positional":
+        # SimulationContext(model_specification, components, configuration, plugin_configuration, sim_name, logging_verbosity)
+        return cls(None, comps + extra, cfg, plug, sim_name, verbosity, **({"setup": kw["setup"]} if "setup" in kw else {}))
+    if route == "tree":
+        return cls(components=comps + extra, configuration=LayeredConfigTree(cfg),
+                   plugin_configuration=LayeredConfigTree(plug) if plug else None, **kw)
+    if route in ("yaml", "yaml_override"):
+        import yaml
+        file_cfg = cfg
+        if route == "yaml_override":
+            # the file carries OTHER values for the same keys; the configuration argument overrides every one of them
+            file_cfg = json.loads(json.dumps(cfg))
+            file_cfg["randomness"]["random_seed"] += 1
+            file_cfg["randomness"]["map_size"] += 1
+            file_cfg["population"]["population_size"] += 2
+            file_cfg["time"]["step_size"] = file_cfg["time"]["step_size"] * 2
+        doc = {"components": components.component_strings(spec), "configuration": file_cfg}
+        if plug:
+            doc["plugins"] = plug
+        path = os.path.join(scratch, f"model_{len(os.listdir(scratch))}.yaml")
+        with open(path, "w") as f:
+            yaml.safe_dump(doc, f)
+        if route == "yaml":
+            return cls(model_specification=path, components=list(extra), **kw)
+        return cls(path, components=list(extra), configuration=cfg, **kw)
+    if route == "update":
+        sim = cls(components=comps + extra, plugin_configuration=plug, **kw)
+        sim.configuration.update(cfg)
+        return sim
+    if route == "split":
+        sim = cls(components=comps[:k], configuration=cfg, plugin_configuration=plug, **kw)
+        sim.add_components(comps[k:] + extra)
+        return sim
+    if route == "nested_add":
+        sim = cls(components=[], configuration=cfg, plugin_configuration=plug, **kw)
+        # lists in tuples in lists: [[first, (the others …)], [[probe]]]
+        sim.add_components([[comps[0], tuple(comps[1:])], [list(extra)]])
+        return sim
+    if route == "holder":
+        return cls(components=[components.Holder(comps[:k])] + comps[k:] + extra, configuration=cfg, plugin_configuration=plug, **kw)
+    raise ValueError(route)
+
+
+def drive(sim, mode, spec, scratch, out):
+    """run the simulation to its configured end through the API `mode` names; the end, the step and the number of steps
+    come from the CONFIGURATION (components.stop_time …), not from the clock object"""
+    stop, h, n = components.stop_time(spec), components.step_size(spec), components.expected_steps(spec)
+    start = components.start_time(spec)
+    ret = None
     if mode in ("run_simulation", "run"):
         sim.run()
-    elif mode == "step":
-        while sim.current_time < clock.stop_time:
+    elif mode == "run_backup":
+        sim.run(backup_path=os.path.join(scratch, "run_backup.pkl"), backup_freq=1e-9)
+    elif mode in ("step", "interactive_step"):
+        while sim.current_time < stop:
             sim.step()
     elif mode == "interactive_take":
-        n = 0
-        while sim.current_time < clock.stop_time:      # one at a time through the interactive API
+        while sim.current_time < stop:      # one at a time through the interactive API
             sim.take_steps(1, with_logging=False)
-            n += 1
+    elif mode == "interactive_take_n":
+        if n is not None:
+            sim.take_steps(number_of_steps=n, step_size=None, with_logging=False)
+        else:
+            while sim.current_time < stop:
+                sim.take_steps()
+    elif mode == "interactive_pairs":
+        # two steps per call (the second one of a call is taken without coming back to the caller); may overrun the end by one step
+        while sim.current_time < stop:
+            sim.take_steps(2, with_logging=False)
     elif mode == "interactive_until":
-        sim.run_until(clock.stop_time, with_logging=False)
-    elif mode == "interactive_step":
-        while sim.current_time < clock.stop_time:
-            sim.step()
+        ret = sim.run_until(stop, with_logging=False)
+    elif mode == "interactive_run":
+        ret = sim.run(with_logging=False)
+    elif mode == "interactive_for":
+        ret = sim.run_for(stop - start)
+    elif mode == "interactive_mixed":
+        sim.step()
+        if n is not None and n >= 3:
+            sim.take_steps(2)
+        ret = sim.run_until(end_time=stop)
+    elif mode == "interactive_explicit":
+        # an explicit step size equal to the configured one (programs without per-simulant clocks only)
+        k = 0
+        while sim.current_time < stop:
+            if k % 3 == 0:
+                sim.step(h)
+            elif k % 3 == 1:
+                sim.step(step_size=h)
+            else:
+                sim.take_steps(1, h, False)
+            k += 1
     else:
         raise ValueError(mode)
-    sim.finalize()
-    out["digests"] = probe.digests
-    out["events"] = probe.events
-    out["results"] = results_digest(sim.get_results())
+    out["ret"] = ret
+
+
+def report_digest(d):
+    if not d or not os.path.isdir(d):
+        return None
+    parts = []
+    for f in sorted(os.listdir(d)):
+        if f.endswith(".parquet"):
+            parts.append(f + "|" + measure_digest(pd.read_parquet(os.path.join(d, f))))
+    return hashlib.sha1("\n".join(parts).encode()).hexdigest()[:16] + f":{len(parts)}"
+
+
+def collect(sim, probe, out, report_dir=None):
+    res = sim.get_results()
+    out["digests"] = list(probe.digests)
+    out["events"] = list(probe.events)
+    out["results"] = results_digest(res)
+    out["measures"] = {k: measure_digest(v) for k, v in res.items()}
     out["final_table"] = table_digest(sim._population.get_population(True))
+    out["report"] = report_digest(report_dir)
+    out["clock"] = probe._tick(sim.current_time)
+
+
+def finish(sim, probe, mode, spec, scratch, out, report_dir=None):
+    drive(sim, mode, spec, scratch, out)
+    sim.finalize()
+    sim.report(print_results=False)
+    collect(sim, probe, out, report_dir)
+
+
+def prior_context(style, k, spec, noise, scratch, probe):
+    """an EARLIER simulation of this process"""
+    from . import enginekit
+    rng = random.Random(f"prior:{noise}:{k}")
+    if style == "empty":
+        SimulationContext(components=[], configuration={"population": {"population_size": 1}}, logging_verbosity=0)
+        return
+    if style == "same":
+        # the same program with another seed, size and component configuration, left unfinished
+        ps = json.loads(json.dumps(spec))
+        ps["seed"] += 1
+        ps["pop"] += 2
+        if ps.get("mort"):
+            ps["mort"]["scale"] = 24
+        if ps.get("obs") and ps["obs"]["strats"] >= 1:
+            ps["obs"]["defaults"] = ["sex"] if ps["obs"].get("defaults") != ["sex"] else []
+    else:
+        ps = enginekit.prior_spec(noise + k, long=(style == "interleaved"))
+        if spec.get("artifact_path"):
+            ps["artifact_path"] = spec["artifact_path"]
+        elif ps.get("extras"):
+            ps["extras"]["art"] = None
+    cls = rng.choice([SimulationContext, InteractiveContext])
+    route = rng.choice(["args", "tree", "yaml", "update", "split", "holder"])
+    psim = make_context(cls, ps, route, [], scratch)
+    psim.setup()
+    if cls is SimulationContext:
+        psim.initialize_simulants()
+    if style == "interleaved":
+        probe.others.append(psim)
+        return
+    psim.step()
+    if style == "same":
+        psim.step()
+        return
+    psim.finalize()
+    psim.get_results()
+    if rng.random() < 0.5:
+        psim.report(print_results=False)
+
+
+def real_logging():
+    """undo the harness's silencing of loguru: the simulation logs for real, into a null device"""
+    from loguru import logger
+    for a in ("add", "remove"):
+        try:
+            delattr(logger, a)
+        except AttributeError:
+            pass
+    sys.stdout = open(os.devnull, "w")
 
 
 def main():
     job = json.load(sys.stdin)
-    spec, mode, noise = job["spec"], job["mode"], int(job.get("noise", 0))
+    real_stdout = sys.stdout
+    spec, mode, noise = job["spec"], job.get("mode", "step"), int(job.get("noise", 0))
     out = {"error": None, "hashseed": os.environ.get("PYTHONHASHSEED"), "mode": mode}
     np.random.seed(noise % (2 ** 31))
     random.seed(noise)
     np.random.random(noise % 5)
+    scratch = tempfile.mkdtemp(prefix="vcw-")
     try:
+        verbosity = int(job.get("verbosity", 0))
+        if verbosity:
+            real_logging()
+        prior = job.get("prior", job.get("prior_contexts", 0))
+        if isinstance(prior, int):
+            prior = [("rich" if k % 2 == 0 else "empty") for k in range(prior)]
         if job.get("resume_path"):
+            holder = Probe(noise)        # only to carry interleaved neighbours of the restoring process
+            for k, style in enumerate(prior):
+                prior_context(style, k, spec, noise, scratch, holder)
             with open(job["resume_path"], "rb") as f:
                 sim = dill.load(f)
             probe = [c for c in sim._component_manager._components if c.name == "zz_probe"][0]
             probe.noise = noise
             probe.crash_at = None
-            # the crashed process had already entered the next step's first state; the backup was written before that
-            finish(sim, probe, "step", out)
+            probe.copy_from = None
+            probe.others = holder.others
+            probe.peek = bool(job.get("peek"))
+            out["context_name"] = sim.name
+            out["ctx"] = type(sim).__name__
+            rmode = job.get("resume_mode", "step")
+            if isinstance(sim, InteractiveContext):
+                rmode = {"step": "interactive_step", "run": "interactive_run", "take": "interactive_take", "until": "interactive_until"}[rmode]
+            else:
+                rmode = {"step": "step", "run": "run", "take": "step", "until": "run"}[rmode]
+            ts = job.get("then_save")
+            if ts:
+                # second interruption: continue for a few steps, write another backup and stop
+                stop = components.stop_time(spec)
+                for _ in range(int(ts["after"])):
+                    if sim.current_time < stop:
+                        sim.step()
+                sim.write_backup(ts["path"])
+                out["digests"] = list(probe.digests)
+                out["saved"] = True
+            else:
+                # the crashed process had already entered the next step's first state; the backup was written before that
+                finish(sim, probe, rmode, spec, scratch, out)
         else:
-            for k in range(int(job.get("prior_contexts", 0))):
-                if k % 2 == 0:
-                    # a whole DIFFERENT simulation earlier in this process (set up, stepped, finalized)
-                    from . import enginekit
-                    ps = enginekit.prior_spec(noise + k)
-                    psim = SimulationContext(components=components.build(ps), configuration=components.configuration(ps),
-                                             plugin_configuration=components.plugins(ps), logging_verbosity=0)
-                    psim.setup()
-                    psim.initialize_simulants()
-                    psim.step()
-                    psim.finalize()
-                    psim.get_results()
-                else:
-                    SimulationContext(components=[], configuration={"population": {"population_size": 1}}, logging_verbosity=0)
+            probe = Probe(noise)
+            probe.peek = bool(job.get("peek"))
+            for k, style in enumerate(prior):
+                prior_context(style, k, spec, noise, scratch, probe)
             if job.get("log_draws"):
                 drawlog.install()
-            probe = Probe(noise)
-            comps = components.build(spec) + [probe]
-            kw = dict(components=comps, configuration=components.configuration(spec),
-                      plugin_configuration=components.plugins(spec), logging_verbosity=0)
-            if mode.startswith("interactive") or job.get("save_ctx") == "interactive":
-                sim = InteractiveContext(setup=False, **kw)
-                probe.sim = sim
-                sim.setup()
-            elif mode == "run_simulation" and job.get("save_at") is None and job.get("crash_at") is None:
-                # literally the one-call API: setup, initialize_simulants, run, finalize, report
-                sim = SimulationContext(**kw)
-                probe.sim = sim
-                sim.run_simulation()
-                out["context_name"] = sim.name
-                out["digests"] = probe.digests
-                out["events"] = probe.events
-                out["results"] = results_digest(sim.get_results())
-                out["final_table"] = table_digest(sim._population.get_population(True))
-                if job.get("log_draws"):
-                    out["draws"] = drawlog.LOG
-                json.dump(out, sys.stdout)
-                return
-            else:
-                sim = SimulationContext(**kw)
-                probe.sim = sim
-                sim.setup()
-                sim.initialize_simulants()
+            report_dir = job.get("report_dir")
+            if report_dir:
+                os.makedirs(report_dir, exist_ok=True)
+                spec = dict(spec, report_dir=report_dir)
+            interactive = mode.startswith("interactive") or job.get("save_ctx") == "interactive" or (job.get("save_all") or {}).get("ctx") == "interactive"
+            cls = InteractiveContext if interactive else SimulationContext
+            sim = make_context(cls, spec, job.get("route", "args"), [probe], scratch, verbosity, job.get("sim_name"))
+            probe.sim = sim
             out["context_name"] = sim.name
-            if job.get("crash_at") is not None:
-                # the engine's own backup path: run(backup_path, backup_freq) writes a backup after every step; the
-                # process "crashes" at the start of step `crash_at`, leaving the backup of the previous boundary on disk
-                probe.crash_at = int(job["crash_at"])
-                if probe.crash_at == 0:
-                    sim.write_backup(job["save_path"])     # nothing stepped yet: run() has not written anything
-                try:
-                    sim.run(backup_path=job["save_path"], backup_freq=1e-9)
-                    out["crashed"] = False
-                except SimulatedCrash:
-                    out["crashed"] = True
-                out["digests"] = list(probe.digests)
-                out["saved"] = True
-            elif job.get("save_at") is not None:
-                for _ in range(int(job["save_at"])):
-                    sim.step()
-                sim.write_backup(job["save_path"])
-                out["digests"] = list(probe.digests)
-                out["saved"] = True
+            if mode == "run_simulation" and not interactive and job.get("save_at") is None and job.get("crash_at") is None and not job.get("save_all"):
+                # literally the one-call API: setup, initialize_simulants, run, finalize, report
+                sim.run_simulation()
+                collect(sim, probe, out, report_dir)
             else:
-                finish(sim, probe, mode, out)
+                sim.setup()
+                if not interactive:
+                    sim.initialize_simulants()
+                if job.get("crash_at") is not None:
+                    # the engine's own backup path: run(backup_path, backup_freq) writes a backup after every step; the
+                    # process "crashes" at the start of step `crash_at`, leaving the backup of the previous boundary on disk
+                    probe.crash_at = int(job["crash_at"])
+                    if probe.crash_at == 0:
+                        sim.write_backup(job["save_path"])     # nothing stepped yet: run() has not written anything
+                    try:
+                        SimulationContext.run(sim, backup_path=job["save_path"], backup_freq=1e-9)
+                        out["crashed"] = False
+                    except SimulatedCrash:
+                        out["crashed"] = True
+                    out["digests"] = list(probe.digests)
+                    out["saved"] = True
+                elif job.get("save_all"):
+                    # ONE process writes the backup of EVERY boundary and carries on to the end: its own run must not be disturbed
+                    sa = job["save_all"]
+                    stop = components.stop_time(spec)
+                    pat = os.path.join(sa["dir"], sa["prefix"] + "%d.pkl")
+
+                    def backup(n):
+                        try:
+                            sim.write_backup(pat % n)
+                        except AssertionError:
+                            import traceback
+                            tb = traceback.format_exc()
+                            if "in memoize" not in tb or "pickle.py" not in tb:
+                                raise
+                            # CPython's pickler and two empty buffers (see C18's oracle): this boundary has no backup
+                            out.setdefault("skipped", []).append(n)
+                            if os.path.exists(pat % n):
+                                os.unlink(pat % n)
+                    backup(0)
+                    if sa["how"] == "run_backup":
+                        probe.copy_from, probe.copy_to = os.path.join(scratch, "current.pkl"), pat
+                        SimulationContext.run(sim, backup_path=probe.copy_from, backup_freq=1e-9)
+                        if probe.steps_started:
+                            shutil.copyfile(probe.copy_from, pat % probe.steps_started)
+                        probe.copy_from = None
+                    else:
+                        n = 0
+                        while sim.current_time < stop:
+                            sim.step()
+                            n += 1
+                            backup(n)
+                    out["boundaries"] = probe.steps_started + 1
+                    sim.finalize()
+                    sim.report(print_results=False)
+                    collect(sim, probe, out)
+                elif job.get("save_at") is not None:
+                    for _ in range(int(job["save_at"])):
+                        sim.step()
+                    sim.write_backup(job["save_path"])
+                    out["digests"] = list(probe.digests)
+                    out["saved"] = True
+                else:
+                    finish(sim, probe, mode, spec, scratch, out, report_dir)
             if job.get("log_draws"):
                 out["draws"] = drawlog.LOG
     except BaseException as e:  # noqa: BLE001
         import traceback
-        out["error"] = f"{type(e).__name__}: {e}"
+        out["error"] = f"{type(e).__name__}: {e}"[:600]
         out["trace"] = traceback.format_exc()[-2000:]
-    json.dump(out, sys.stdout)
+    finally:
+        shutil.rmtree(scratch, ignore_errors=True)
+    real_stdout.write("\n" + MARK + json.dumps(out) + "\n")
+    real_stdout.flush()
 
 
 if __name__ == "__main__":
